@@ -162,11 +162,11 @@ example : SOp.docOk C03.opts2 (.addPkt [a!"zz"] [.unk, .unk, .unk]) [] :=
 
 /-- a create_loop there too, even with a name list that repeats a name -/
 example : SOp.docOk C03.opts2 (.mkLoop [a!"zz"] [a!"_q", a!"_q"]) [] :=
-  ⟨by simp, fun cc h => by simp [getIn] at h⟩
+  ⟨by simp, by decide, fun cc h => by simp [getIn] at h⟩   -- (gX: `docOk` now also says the names are valid)
 
 /-- a create_frame below a parent that does not exist: `getD []` makes every code "not in use" -/
-example : SOp.docOk C03.opts2 (.mkFrame [a!"zz"] (a!"f") false) [] := by
-  simp [SOp.docOk, getIn]
+example : SOp.docOk C03.opts2 (.mkFrame [a!"zz"] (a!"f") false) [] :=
+  ⟨Or.inr (by decide), by simp [getIn]⟩   -- (gX: `docOk` now also says the code is valid unless the creation is lenient)
 
 /-- and the model's effect of all three is: nothing -/
 example : (SOp.addPkt [a!"zz"] [.unk, .unk, .unk]).apply C03.opts2 [] = [] ∧
